@@ -177,6 +177,11 @@ type params struct {
 	CoABy    string `json:"coa_by,omitempty"` // id | ip | mac
 	PADTRetr int    `json:"padt_retries,omitempty"`
 	Hostname string `json:"hostname,omitempty"`
+
+	// superseded family
+	MAC2     hexb   `json:"mac2,omitempty"`      // replacement CPE
+	Cid2     hexb   `json:"cid2,omitempty"`      // the circuit the client moves to
+	ReqShape string `json:"req_shape,omitempty"` // shape of the superseding REQUEST: renewing | initreboot | selecting
 }
 
 // sigKind: the component named in signatures (relayed and direct DHCP sessions end in the same handlers;
@@ -317,6 +322,9 @@ func check(outer *testing.T, t vstat.Fataler, tc *tcase) {
 	}
 	history := func() string { return "case: " + jsonOf(tc) + "\n" + strings.Join(res.log, "\n") }
 	var kfcls []string
+	if os.Getenv("C16_TRACE") != "" {
+		outer.Logf("%s\n  violations: %v", history(), res.viol)
+	}
 	if collectMode {
 		// development aid (C16_COLLECT=1): tally every signature instead of stopping at the first unlisted one
 		cellMu.Lock()
